@@ -1,5 +1,6 @@
 """C10 — diffusivities: correspondence Mobility.py / FreeEnergyHessian.py <-> KawinV.Mob / KawinV.DMu,
-the traced tracer formula, and the monitored oracle on the shipped databases."""
+the traced tracer formula, the monitored oracle on the shipped databases, and the user-supplied callable tables
+(setMobility / setDiffusivity histories on private instances <-> KawinV.MobTable)."""
 import math, os, sys, warnings
 import numpy as np
 import vlib
@@ -59,7 +60,7 @@ def regenerate(ctx):
 
 
 META = {
-    'level_text': 'PARTLY DECIDED BY PROOF (the algebraic clauses; the first sentence of the property - agreement with finite differences, positive definiteness, eigenvalue signs - is a fact about the CALPHAD functions/pycalphad and is only monitored by the oracle). Lean 4 theorems, for any field and any number of elements, about executable models of mobility_matrix / x_to_u_frac, of the bordered-Hessian assembly hessian(), of the row selection in totalddx/dMudX/partialdMudX over an ARBITRARY inverse matrix, of chemical_diffusivity/interdiffusivity, and about the traced tracer_diffusivity: volume-fixed frame (every substitutional column of the mobility matrix sums to zero, hence the substitutional fluxes J = -M.grad(mu) sum to zero for any gradient); tracer = 8.314*T*mobility element-wise and positive with the mobility; dMudX = -B^T K B, symmetric whenever K is, K symmetric whenever the assembled Hessian is, the assembled Hessian symmetric whenever pycalphad\'s site-fraction block is; Gibbs-Duhem for partialdMudX derived from the assembled bordered system at a stationary composition set; Darken: the binary interdiffusivity pipeline equals (x_R D*_k + x_k D*_R) x_k x_R G\'\'/(RT) with G\'\' what dMudX returns, and is positive when mobilities, G\'\' and T are. The models are tied to kawin/thermo on every run (inverse Hessian, mobilities, mole fractions captured from real pycalphad composition sets and from duck-typed random phases; outputs compared to rtol 1e-9), and every clause is also evaluated directly on the implementation.',
+    'level_text': 'PARTLY DECIDED BY PROOF (the algebraic clauses; the first sentence of the property - agreement with finite differences, positive definiteness, eigenvalue signs - is a fact about the CALPHAD functions/pycalphad and is only monitored by the oracle). Lean 4 theorems, for any field and any number of elements, about executable models of mobility_matrix / x_to_u_frac, of the bordered-Hessian assembly hessian(), of the row selection in totalddx/dMudX/partialdMudX over an ARBITRARY inverse matrix, of chemical_diffusivity/interdiffusivity, and about the traced tracer_diffusivity: volume-fixed frame (every substitutional column of the mobility matrix sums to zero, hence the substitutional fluxes J = -M.grad(mu) sum to zero for any gradient); tracer = 8.314*T*mobility element-wise and positive with the mobility; dMudX = -B^T K B, symmetric whenever K is, K symmetric whenever the assembled Hessian is, the assembled Hessian symmetric whenever pycalphad\'s site-fraction block is; Gibbs-Duhem for partialdMudX derived from the assembled bordered system at a stationary composition set; Darken: the binary interdiffusivity pipeline equals (x_R D*_k + x_k D*_R) x_k x_R G\'\'/(RT) with G\'\' what dMudX returns, and is positive when mobilities, G\'\' and T are. USER-SUPPLIED CALLABLE TABLES (Model/MobTable.lean: mobCallables/diffCallables of a phase as finite maps element -> function id, the ops setMobility/setDiffusivity with a dict / one callable / element=X, and which table the diffusivity functions read): for every dict, every history and every meaning of the function ids over any field - after setMobility(dict) every element reads its own entry (lookup_after_setAll) and its tracer diffusivity is R*T*M of the function given FOR it (tracer_after_setAll), a later single-element write wins and touches nothing else (last_write_wins, setOne_touches_only_e, setAll_then_keeps, setAll_overrides), the mobility table has priority over the diffusivity table, the tracer depends on T and the element\'s own function only; witness theorems for the late-binding closure variant (late_reads_last, late_binding_witness, late_binding_tracer_witness). Tied to the real class on every run: random op histories on private instances of the shipped databases (incl. the Al-Zr variant without any mobility parameters) against the driver, the real closures identified by probing them at two temperatures. The models are tied to kawin/thermo on every run (inverse Hessian, mobilities, mole fractions captured from real pycalphad composition sets and from duck-typed random phases; outputs compared to rtol 1e-9), and every clause is also evaluated directly on the implementation.',
     'level_note': 'MONITORED ONLY (oracle on grids over the matrix-phase region of the shipped databases; these are facts about the CALPHAD functions and pycalphad\'s derivatives/solver, not about kawin\'s logic, and no theorem covers them): dMudX equals the central finite difference of the equilibrium chemical potentials through getLocalEq; dMudX positive definite; interdiffusivity eigenvalues real and positive (positive scalar for binaries); tracer diffusivities/mobilities positive; stationarity of the converged composition set (hypothesis of the Gibbs-Duhem/Darken theorems, checked numerically as Gibbs-Duhem residual). np.linalg.inv is not modelled (its result is an input; symmetry of the inverse is proved from symmetry of the matrix). Element re-ordering in getInterdiffusivity/getTracerDiffusivity is proved in C11 (Model/Permute.lean, wrapMat_equivariant / wrapVecRef_equivariant); here it is only exercised by a paired evaluation. Exact-field theorems vs IEEE doubles. The statement of C10 is dominated by the monitored clauses: what is PROVED is the algebraic half (tracer = RTM, Darken, volume-fixed frame, symmetry), what decides the first sentence of the property on the databases is the oracle. Known finding (known_findings.txt, key darken-public-diffusivity-only-database): on the diffusivity-only Al-Zr databases the PUBLIC getInterdiffusivity/getTracerDiffusivity pair does not satisfy Darken (solvent tracer reported as exp(0) = 1).',
     'technique': 'Lean 4 proof over fields (Finset sums, Mathlib Matrix for the inverse) + py2lean trace of tracer_diffusivity + model/implementation differential correspondence on captured inverse Hessians + monitored oracle (finite differences, eigenvalues) on the shipped databases',
     'design_ref': 'DESIGN.md section 6, C10',
@@ -77,6 +78,7 @@ ASSUMPTIONS = [
     'temperature positive, substitutional mole fractions do not sum to zero',
     'Darken: binary substitutional phase, mole fractions sum to one, composition set stationary (first-order equilibrium condition), bordered Hessian invertible',
     'exact-field theorems vs IEEE doubles: outputs compared with rtol 1e-9 scaled by the magnitude of the summed terms',
+    'user-table histories: user functions are functions of T alone (the documented setMobility/setDiffusivity contract), a dict has distinct keys; a raising call (element=X on a phase without a table) leaves the state unchanged',
     'stable matrix-phase region = sampled box per database filtered by non-positive precipitate driving force w.r.t. the loaded phases',
 ]
 TRUSTED = ['np.linalg.inv (result captured and used as model input)', 'pycalphad phase-record callables (formulahess, formulagrad, formulamole_*, internal_cons_jac) and local_equilibrium',
@@ -693,7 +695,7 @@ def _load_user(name):
 def make_pool(rng):
     """NPOOL Arrhenius functions A.exp(-Q/(R.T)), strictly ordered at every temperature and >= 1.5 decades apart:
     a function is identified by its values at two temperatures"""
-    la = rng.uniform(-8.0, -4.0)
+    la = rng.uniform(-16.0, -12.0)
     A, Q = [], sorted(rng.uniform(5e4, 1.5e5) for _ in range(NPOOL))
     for _ in range(NPOOL):
         A.append(10 ** la)
@@ -1065,7 +1067,10 @@ def run(ctx, P, use_model=True):
     res.rule = ('duck-typed random phases (1-2 sublattices, 2-7 elements, interstitials C/N/O/H/B with and without vacancies, '
                 'mobility correction none/partial/full, vacancy-poor flag, stationary binaries, singular Hessians) and real pycalphad '
                 'composition sets from getLocalEq on sampled (x, T) boxes of the matrix phase of the shipped databases; '
-                'non-trivial = invertible bordered Hessian; distinct = (kind, seed)')
+                'non-trivial = invertible bordered Hessian; distinct = (kind, seed). User tables: random histories (1-5 ops) of setMobility/setDiffusivity '
+                'with a dict of different Arrhenius functions in a random key order (sometimes partial) / one function / element=X (dict with further ignored entries), '
+                'random mobility corrections, on private instances of Al-Zr without parameters, Al-Zr (diffusivity only), Ni-Al, Ni-Cr, Ni-Cr-Al, Ni-Al-Cr; evaluated after '
+                'every op at one (x, T) and at the end at a second T and a second x; non-trivial = a user function is read without error')
     res.monitored = list(MONITORED)
     cases, lines, spans, ucases = [], [], [], []
     G = vlib.guarded
